@@ -138,8 +138,8 @@ func (s stmt) sql(m int) string {
 			return fmt.Sprintf("CREATE TABLE %s %s (id INTEGER PRIMARY KEY, v TEXT, [g] INT AS (id + 1));", s.a, mk)
 		}
 		return fmt.Sprintf("CREATE TABLE %s %s (id INTEGER PRIMARY KEY, v %s);", s.a, mk, unparsableType) // "parse size"
-	case "ciu": // addIndexes looks for an upper-case WHERE
-		return fmt.Sprintf("CREATE INDEX %s %s ON %s (v) where v > 'a';", s.a, mk, s.b)
+	case "ciu": // addIndexes looks for WHERE right after the closing parenthesis of the key parts: a comment in between hides it
+		return fmt.Sprintf("CREATE INDEX %s %s ON %s (v) /* partial */ WHERE v > 'a';", s.a, mk, s.b)
 	default:
 		return fmt.Sprintf("CREATE TABL oops %s;", mk)
 	}
@@ -331,7 +331,7 @@ func buildStarts() []startState {
 		{name: "unread-table", db: []obj{{"tu", "t9", "t9", 1}},
 			setup: append([]string{"CREATE TABLE t9 (id INTEGER PRIMARY KEY, v " + unparsableType + ")"}, rowsSQL("t9", 1)...)},
 		{name: "unread-index", db: []obj{{"t", "t9", "t9", 0}, {"iu", "i9", "t9", 0}},
-			setup: []string{"CREATE TABLE t9 " + tblCols, "CREATE INDEX i9 ON t9 (v) where v > 'a'"}},
+			setup: []string{"CREATE TABLE t9 " + tblCols, "CREATE INDEX i9 ON t9 (v) /* partial */ WHERE v > 'a'"}},
 		{name: "unread-gen-view", db: []obj{{"tu", "t9", "t9", 0}, {"v", "v9", "v9", 0}},
 			setup: []string{"CREATE TABLE t9 (id INTEGER PRIMARY KEY, v TEXT, [g] INT AS (id + 1))", "CREATE VIEW v9 AS SELECT 1 AS x"}},
 		// ... and one whose unparsable table the inspection never looks at (hidden name): refused as "not clean"
@@ -1191,7 +1191,7 @@ func genCLI(tier string) []*tcase {
 	// 7. the exit "every statement succeeded, the read of the state afterwards failed": every
 	//    command x every position of every script holds a statement whose result the inspector
 	//    cannot parse -- (a) the statement itself in its unparsable form (CREATE TABLE -> unparsable
-	//    column / bracket-quoted generated column, CREATE INDEX -> lower-case where), (b) a fresh
+	//    column / bracket-quoted generated column, CREATE INDEX -> a comment before WHERE), (b) a fresh
 	//    unparsable table in its place (what follows may fail: tells a read after every statement
 	//    (DevLoader.nextStmts) from one read at the end (Replay, DevLoader.base/first)),
 	//    (c) a fresh unparsable table that the next statement drops again; clean and
